@@ -274,7 +274,9 @@ func managedCases(c *Ctx) []string {
 	srcs := []string{
 		"package main\n\nimport (\n\t\"fmt\"\n\tx \"os\"\n)\n\nfunc f() {\n\tfmt.Println(x.Args) // t\n\tfmt. /*a*/ Print /*b*/ (1)\n}\n",
 		"package main\n\nimport \"strings\"\n\nvar a = strings.Repeat(\"a\", 2)\n\n// doc\nvar b strings.Builder // trailing\n",
+		"package main\n\nimport (\n\t\"io\"\n\t\"os\"\n)\n\nvar errs = []error{io.EOF, io.ErrClosedPipe, os.ErrExist}\n\nfunc g(a io.Reader, b io.Writer, c os.Signal) {\n\th(io.EOF, os.Args, io.Discard)\n}\n",
 	}
+	srcs = append(srcs, srcs...) // each twice: different random spacing
 	var out []string
 	for _, src := range srcs {
 		dec := decorator.NewDecoratorWithImports(token.NewFileSet(), "main", nil)
@@ -321,6 +323,8 @@ func managedCases(c *Ctx) []string {
 func randomDecorateIdents(r *rand.Rand, f *dst.File) {
 	dst.Inspect(f, func(n dst.Node) bool {
 		if id, ok := n.(*dst.Ident); ok && id.Path != "" && r.Intn(2) == 0 {
+			id.Decs.Before = dst.SpaceType(r.Intn(3))
+			id.Decs.After = dst.SpaceType(r.Intn(3))
 			id.Decs.X.Append("/*x*/")
 			if r.Intn(2) == 0 {
 				id.Decs.Start.Append("/*s*/")
